@@ -352,6 +352,29 @@ def load_known():
     return out
 
 
+def simulate_parallel(module, cfg, procs=4, num=400, depth=400, timeout=1800, **kw):
+    """several single-worker TLC simulations in parallel with distinct seeds (TLC's workers share one random stream
+    for RandomElement, so one process per seed is what gives distinct behaviours). Returns list of TlcResult."""
+    import threading
+    out = [None] * procs
+    errs = []
+
+    def one(i):
+        try:
+            out[i] = run_tlc(module, cfg, workers=1, simulate=num, depth=depth, timeout=timeout,
+                             seedval=seed() * 1000 + i, tag="%s-sim%d" % (module, i), xmx="3g", **kw)
+        except Exception as e:  # noqa
+            errs.append(e)
+    ths = [threading.Thread(target=one, args=(i,)) for i in range(procs)]
+    for t in ths:
+        t.start()
+    for t in ths:
+        t.join()
+    if errs:
+        raise errs[0]
+    return out
+
+
 def generate(module, cfg, workers=8, timeout=1800, key=None, **kw):
     """Run TLC as a vector generator: returns (TlcResult, list of distinct printed JSON vectors)."""
     res = tlc_ok(run_tlc(module, cfg, workers=workers, timeout=timeout, **kw), module + "/" + cfg)
